@@ -74,3 +74,10 @@ add("C05", "E4 histories", "model_checking",
     "Every program of nesting depth 2 over {new-style typeguard/beartype, old-style double decorator, typechecker=None, dataclass __init__, method, classmethod, generator function, coroutine function, recursion, context block} x exits {return, Exception, BaseException, KeyboardInterrupt, SystemExit, GeneratorExit, ill-typed arguments, ill-typed return, non-binding call} with colliding axis names and manual checks before/inside/after is executed on the real API (bodies call back into the interpreter, so pushes and pops are the real ones); after every statement print_bindings() must equal the reference's top frame and the real stack depth the reference depth; {arg}-symbolic checks observe the argument memo; at the end the stack is empty and flags clear.",
     "Reference interpreter RefInterp (in vf/checks/c05.py); generator/coroutine bodies are driven immediately after the call in the caller's context; quick uses a reduced kind/exit grammar at the same depth.",
     "DESIGN.md §6 C05")
+
+ENGINES.append(dict(name="E3 sched", path="vf/sched.py, vf/checks/c06.py", serves_properties=["C06"], kind_free_text="stateless model checker for real threads: sys.settrace scheduling points + semaphore baton, iterative preemption bounding, replayable schedules"))
+add("C06", "E3 sched", "model_checking",
+    "stateless model checking of real threads under a controlled scheduler (CHESS-style preemption bounding), transcripts compared with solo runs",
+    "Real threading.Thread workloads (context blocks, bare checks, decorated and nested decorated calls, PyTree checks with '?' axes, failing checks that trigger rollback, wrong-dtype probes that a leaked flatten flag would accept; 2-3 threads) are serialised by a semaphore baton; a context switch is possible before every source line of jaxtyping; every schedule with <= 1 preemption (quick) / <= 2 preemptions for the 2-thread workloads (thorough) is executed to completion and every thread's transcript of verdicts, exception classes and print_bindings() texts must equal the transcript of the same body run alone.",
+    "One OS thread runs at a time (asserted at every scheduling point); races inside one source line are not explored (single attribute/dict stores are atomic under the GIL); bound-2 runs of PyTree workloads use scheduling points at every line of _storage.py and at every call event elsewhere.",
+    "DESIGN.md §6 C06, §3 E3")
